@@ -45,6 +45,12 @@ CHECKS = {
  'C19': dict(cat='proof', tech='Rocq proof (identity rules, inherited hashes give REP never BLK, REP/CHG verified in the very step that makes them BLK, REP mismatch refuses the stripe, pre-hash leaves parity untouched, --force-nocopy, fetch verified by hash) + decoy scenarios on the real binary with parity snapshots and an independent hash of every BLK block',
              text='Theorems on the scan/sync/pre-hash models; decoys (same name, size, time-stamp, other bytes) on the same disk, other disks and import directories must never be recorded synced without having been read, and with -h no parity byte may change.',
              ref='4/C19'),
+ 'C07': dict(cat='proof', tech='Rocq proof on an effect-trace model of sync (crash states = prefixes incl. torn writes; every crash state keeps a loadable content whose synced stripes have valid parity, under "single-thread or no autosave" - refuted with a witness for threaded autosave; resume converges; adds-only recoverability per intact level) + fault enumeration on the real binary: kill before/after/short at every numbered state-changing syscall of sync and fix, signals at every parity write',
+             text='The crash-state invariant is proved on the trace model (content save atomic by C09, parity writes per level in order) and refuted for the threaded autosave (open finding); every kill point of real runs is then judged by independent oracles (data snapshot, loadable content, independent parity check, resumed sync, recovery from lost devices). Kernel/power-loss semantics are not modelled.',
+             ref='4/C07', note='As TB; additionally: process-death semantics only (completed syscalls persist; no power-loss or write-reordering model); a torn block-sized pwrite with a single parity level is measured, not judged (Q-C07).'),
+ 'C08': dict(cat='proof', tech='Rocq proof (read faults in sync and scrub leave the stripe unsynced or bad with a failing status; error limit; exit status failing for every write fault and writer schedule; full write-fault safety refuted by witnesses = open finding) + fault enumeration: EIO/ENOSPC at every pread/pwrite index with cache depths 1..128, compared with the extracted writer-accounting model',
+             text='Read-fault safety and the exit-status half of write-fault safety are proved for all runs of the sync/scrub models; the stripe-state half is refuted (F-C08-parity-write-error-recorded-synced). Every injected fault of real runs is judged by exit status, decoded content, status, and repair by fix -e / sync verified with the independent parity checker.',
+             ref='4/C08'),
  'C03': dict(cat='proof', tech='Rocq proof (MDS of the 6x251 Cauchy and 3x251 power matrices by polynomial root counting in MathComp; Gauss-Jordan without pivoting never meets a zero pivot; combination enumerator and sorting networks) + unit correspondence of raid_rec/raid_data/raid_check/raid_scan in all decoder families against the known original stripe',
              text='All 3.8e11 minors are settled by theorems, not enumeration; the decoder/validator models are executed against the real raid/*.c (int8, ssse3, avx2, dispatcher) on exhaustive small geometries and boundary-aimed large ones, the oracle being the original stripe.',
              ref='4/C03'),
